@@ -210,7 +210,7 @@ class CouplingAnalysis:
             array[t] /= array[t].std(axis=1).reshape(N, 1)
 
             #  Correct for nodes with zero variance in their time series
-            array[t][numpy.isnan(array[t])] = 0
+            array[t][~numpy.isfinite(array[t])] = 0
 
         if lag_mode == 'max':
             return _cross_correlation_max(
